@@ -30,11 +30,15 @@ impl Clone for ReTok {
 /// `[40 + kind, 0, 0]`: a value with two owners; the operation clones it because it is shared, and the other owner is
 /// released during that clone.  The original value must be destroyed exactly once and its block returned once.
 /// observation `[status, SEP, destroyed.., SEP, released, count of the result]`
-pub fn reentrant(kind: u64) -> Vec<u64> {
+pub fn reentrant(kind: u64, dtor_panics: bool) -> Vec<u64> {
     tok::reset();
     let _ = talloc::drain();
     talloc::record(true);
     let a = Arc::new(ReTok { t: Tok::new() });
+    if dtor_panics {
+        // the original value's destructor panics (token 0): the operation's release of the old handle is the last one
+        tok::set_drop_panic(0);
+    }
     let heap = a.heap_ptr() as usize;
     SLOT.with(|s| *s.borrow_mut() = Some(a.clone()));
     talloc::record(false);
@@ -51,6 +55,7 @@ pub fn reentrant(kind: u64) -> Vec<u64> {
             None => return vec![96],
         }
     };
+    crate::mech::install_observer();
     talloc::record(true);
     let r = catch_unwind(AssertUnwindSafe(move || -> (u64, Box<dyn std::any::Any>) {
         match kind {
@@ -83,6 +88,8 @@ pub fn reentrant(kind: u64) -> Vec<u64> {
     let mut bad = 0u64;
     for e in &evs {
         match *e {
+            // the counter of the original block touched after the block went back to the allocator
+            Ev::Atomic { addr, .. } if addr == blk.0 && released > 0 => bad += 1,
             Ev::Dtor { id } => out.push(id),
             Ev::BadDtor { id, .. } => {
                 out.push(777777);
@@ -286,7 +293,7 @@ pub fn run1(kind: u64, n: usize, k: u64) -> Vec<u64> {
         return if kind < 28 && n == 0 && k == 0 { plain(kind - 24) } else { vec![98] };
     }
     if kind >= 20 {
-        return if n == 0 && k == 0 { reentrant(kind - 20) } else { vec![98] };
+        return if n == 0 && (k == 0 || (k == 1 && kind > 20)) { reentrant(kind - 20, k == 1) } else { vec![98] };
     }
     if n > 16 {
         return vec![99];
